@@ -11,8 +11,10 @@ package main
 // peer 0 and session 2j+1 on peer 1; ids are numbers: 2k = the address of connection name k,
 // odd = a user id):
 //
-//	a<k>[s<v>][r]  new connection named k, both ends through ServeConn (peer 0 first, then peer 1);
-//	               peer 1's accept hook calls SetID(v) (s<v>) and/or refuses (r)
+//	a<k>[s<v>][x][r]  new connection named k, both ends through ServeConn (peer 0 first, then peer 1);
+//	               peer 1's accept hook calls SetID(v) (s<v>), calls Close() on the session (x:
+//	               a Close() that lands while the accept hooks run, as Peer.Close or a take-over
+//	               of the session's id would) and/or refuses (r)
 //	l<k>[s<v>][r]  the same with peer 1's end going through the listener accept path
 //	i<s>x<v>       SetID(v) on session s          c<s>  Close() of session s
 //	r<s>           Close() of the other end of s  u<s>  the connection of s is cut
@@ -71,6 +73,7 @@ func (h *C07p) Note(arg *int) *erpc.Status {
 
 type c07Script struct {
 	setID  string // "" = none
+	close  bool   // Close() the session inside the hook
 	reject bool
 }
 
@@ -92,6 +95,11 @@ func (p *c07Plug) PostAccept(s erpc.PreSession) *erpc.Status {
 	p.mu.Unlock()
 	if sc.setID != "" {
 		s.SetID(sc.setID)
+	}
+	if sc.close {
+		if ss, ok := s.(erpc.Session); ok {
+			ss.Close()
+		}
 	}
 	atomic.AddInt64(&p.accepted, 1)
 	if sc.reject {
@@ -153,29 +161,30 @@ type c07Park struct {
 }
 
 type c07Env struct {
-	peers   [2]erpc.Peer
-	plugs   [2]*c07Plug
-	sess    []erpc.Session
-	conns   []*mem.Conn
-	idx     map[erpc.Session]int
-	ids     map[int]bool
-	lis     *c07Listener
-	callSM  string
-	pushSM  string
-	pclosed [2]bool
-	rejected map[int]bool
+	peers      [2]erpc.Peer
+	plugs      [2]*c07Plug
+	sess       []erpc.Session
+	conns      []*mem.Conn
+	idx        map[erpc.Session]int
+	ids        map[int]bool
+	lis        *c07Listener
+	callSM     string
+	pushSM     string
+	pclosed    [2]bool
+	rejected   map[int]bool
+	hookClosed map[int]bool // sessions closed inside their accept hook
 
 	mu     sync.Mutex
 	notify map[erpc.Session]int
 	left   map[erpc.Session]string // first transition out of a closed state
 
 	// schedule cases
-	target  erpc.Session
-	rec     bool
-	trace   []string
-	parked  map[byte]*c07Park
-	free    bool
-	hung    bool
+	target erpc.Session
+	rec    bool
+	trace  []string
+	parked map[byte]*c07Park
+	free   bool
+	hung   bool
 }
 
 var c07Cur atomic.Value // *c07Env
@@ -197,7 +206,7 @@ func c07Setup() {
 }
 
 func newC07Env() *c07Env {
-	e := &c07Env{rejected: map[int]bool{}, idx: map[erpc.Session]int{}, ids: map[int]bool{}, notify: map[erpc.Session]int{},
+	e := &c07Env{rejected: map[int]bool{}, hookClosed: map[int]bool{}, idx: map[erpc.Session]int{}, ids: map[int]bool{}, notify: map[erpc.Session]int{},
 		left: map[erpc.Session]string{}, parked: map[byte]*c07Park{}}
 	for i := 0; i < 2; i++ {
 		e.plugs[i] = &c07Plug{disc: map[erpc.Session]int{}}
@@ -411,7 +420,7 @@ func (e *c07Env) add(s erpc.Session, c *mem.Conn) {
 
 // ---- operations ------------------------------------------------------------------------------------
 
-func (e *c07Env) accept(name int, listen bool, hook int, rej bool) string {
+func (e *c07Env) accept(name int, listen bool, hook int, rej bool, hclose bool) string {
 	ca, cb := mem.Pair(fmt.Sprintf("n%d", name))
 	e.ids[2*name] = true
 	sa, _ := e.peers[0].ServeConn(ca)
@@ -423,7 +432,7 @@ func (e *c07Env) accept(name int, listen bool, hook int, rej bool) string {
 		return "noquiet-a"
 	}
 	p := e.plugs[1]
-	sc := c07Script{reject: rej}
+	sc := c07Script{reject: rej, close: hclose}
 	if hook >= 0 {
 		sc.setID = c07IDStr(1, hook)
 		e.ids[hook] = true
@@ -453,6 +462,9 @@ func (e *c07Env) accept(name int, listen bool, hook int, rej bool) string {
 		return "nosess-b"
 	}
 	e.add(sb, cb)
+	if hclose {
+		e.hookClosed[len(e.sess)-1] = true
+	}
 	if rej {
 		e.rejected[len(e.sess)-1] = true
 		return "rej"
@@ -586,11 +598,18 @@ func (e *c07Env) observe(viol func(oracle, detail, sig string)) string {
 				if dc == 2 {
 					sig = "c07:close-vs-disconnect-double-hook"
 				}
+				if e.hookClosed[i] {
+					sig = "c07:accept-revives-closed-session"
+				}
 				viol("disconnect-hook-once", fmt.Sprintf("established session %d closed: disconnect hook ran %d times", i, dc), sig)
 			}
 		}
 		if hasLeft {
-			viol("closed-absorbing", fmt.Sprintf("session %d left a closed state: %s", i, lf), "c07:closed-state-left")
+			sig := "c07:closed-state-left"
+			if e.hookClosed[i] {
+				sig = "c07:accept-revives-closed-session"
+			}
+			viol("closed-absorbing", fmt.Sprintf("session %d left a closed state: %s", i, lf), sig)
 		}
 	}
 	hubs := [2]string{}
@@ -681,7 +700,7 @@ func c07RunHist(line, opsStr string, out *hx.Out) (string, bool) {
 		a := t[0][1]
 		switch byte(t[0][0]) {
 		case 'a', 'l':
-			hook, rej := -1, false
+			hook, rej, hclose := -1, false, false
 			for _, x := range t[1:] {
 				if x[0] == 's' {
 					hook = x[1]
@@ -689,8 +708,14 @@ func c07RunHist(line, opsStr string, out *hx.Out) (string, bool) {
 				if x[0] == 'r' {
 					rej = true
 				}
+				if x[0] == 'x' {
+					hclose = true
+				}
 			}
-			r = e.accept(a, t[0][0] == 'l', hook, rej)
+			r = e.accept(a, t[0][0] == 'l', hook, rej, hclose)
+			if hclose {
+				out.Count("op:accept-hook-close")
+			}
 			out.Count("op:accept")
 			if rej {
 				out.Count("op:accept-reject")
@@ -767,7 +792,7 @@ func c07RunHist(line, opsStr string, out *hx.Out) (string, bool) {
 func c07RunSched(line, order string, out *hx.Out) (string, bool) {
 	e := newC07Env()
 	defer e.teardown()
-	if r := e.accept(0, false, -1, false); r != "ok" || !e.waitQuiet() {
+	if r := e.accept(0, false, -1, false, false); r != "ok" || !e.waitQuiet() {
 		return "setup-" + r, false
 	}
 	tgt := e.sess[1]
@@ -919,6 +944,9 @@ var c07Fixed = []string{
 	"c07hist ops=l0,l1s3,l2s3r,l0,a0r", // listener accept path
 	"c07hist ops=a0,l1,p0,a2,l3,p1,l4,p0,p1,a5",
 	"c07hist ops=a0,c0,c0,c1,r0,u0,q0,w1,i0x1",
+	"c07hist ops=a0x,q0,a1",              // Close() lands while the accept hook runs (ServeConn)
+	"c07hist ops=l0x,l1,l1s3x,l2s3,a3xr", // the same on the listener path, with SetID, refused
+	"c07hist ops=a0,a1s0x,q0,a2",         // the hook takes over a live session's id, then is closed
 }
 
 func c07AllOrders(c, r int) []string {
@@ -1000,12 +1028,16 @@ func c07GenHist(r *hx.R, maxOps int) string {
 					op += fmt.Sprintf("s%d", anyID())
 				}
 			}
+			hclose := r.Intn(100) < 7
+			if hclose {
+				op += "x"
+			}
 			rej := r.Intn(100) < 12
 			if rej {
 				op += "r"
 			}
 			ops = append(ops, op)
-			ss = append(ss, sess{closed: rej}, sess{closed: rej})
+			ss = append(ss, sess{closed: rej || hclose}, sess{closed: rej || hclose})
 		case x < 45:
 			s := pickSess(r.Intn(20) != 0)
 			if s < 0 {
